@@ -257,6 +257,11 @@ func genHist(t *rapid.T) HCase {
 				}
 			}
 			e := es[rapid.IntRange(0, len(es)-1).Draw(t, "entry")]
+			// the entry was found reachable BY CODE; a name is only usable if it resolves too
+			// (two dictionaries may spell the name of one code differently)
+			if d, err := cat.P.FindAVPWithVendor(c.App, e.Name, e.Vendor); err != nil || d.Code != e.Code || d.Data.TypeName != e.Type {
+				op.Kind = "new-u32"
+			}
 			op.Name = e.Name
 			fl := rapid.Byte().Draw(t, "flags") &^ 0x80
 			if e.Vendor != 0 {
